@@ -516,6 +516,47 @@ def _find_tail_continue(toks, bo, bc):
     return None
 
 
+def _bytestr_const(plain, name, rules):
+    """R9-bytestr: `const X: &[u8] = b"...";`  ->  `#[verifier::external_body] exec const X: &'static [u8]
+    ensures X@.len() == N, X@[0] == b0, ... { b"..." }`.  Verus has no value semantics for byte-string literals, so the
+    extractor DECODES the literal of the real source (Rust reference, byte string literals: backslash, n, r, t, 0,
+    quotes, xHH and line continuation) and states its bytes; the literal itself is kept verbatim as the (unverified)
+    body.  Any other const is returned unchanged; an escape this decoder does not know is a BuildError (undecided)."""
+    m = re.match(r"""\s*((?:pub(?:\([a-z]+\))?\s+)?)const\s+(\w+)\s*:\s*&\s*(?:'static\s+)?\[\s*u8\s*\]\s*=\s*(b"((?:[^"\\]|\\.|\\\n)*)")\s*;\s*$""",
+                 plain, re.S)
+    if not m:
+        return plain
+    lit, body = m.group(3), m.group(4)
+    out = []
+    i = 0
+    simple = {"\\": 92, "n": 10, "r": 13, "t": 9, "0": 0, '"': 34, "'": 39}
+    while i < len(body):
+        ch = body[i]
+        if ch != "\\":
+            if ord(ch) > 127:
+                raise BuildError("R9-bytestr: non-ASCII character in byte string literal of %s" % name)
+            out.append(ord(ch))
+            i += 1
+            continue
+        nx = body[i + 1]
+        if nx in simple:
+            out.append(simple[nx])
+            i += 2
+        elif nx == "x":
+            out.append(int(body[i + 2:i + 4], 16))
+            i += 4
+        elif nx == "\n":
+            i += 2
+            while i < len(body) and body[i] in " \t\n\r":
+                i += 1
+        else:
+            raise BuildError("R9-bytestr: unknown escape \\%s in %s" % (nx, name))
+    ens = ["%s@.len() == %d" % (name, len(out))] + ["%s@[%d] == %du8" % (name, k, b) for k, b in enumerate(out)]
+    rules.append("R9-bytestr %s: %d bytes decoded from the literal" % (name, len(out)))
+    return ("#[verifier::external_body]\n%sexec const %s: &'static [u8]\n    ensures\n        %s,\n{ %s }\n"
+            % (m.group(1), name, ",\n        ".join(ens), lit))
+
+
 def _replace_macro(text, macro, new, rule, rules):
     """Rewrite EVERY invocation `macro!( ... )` (balanced) to `new`, however many there are and whatever the arguments
     (so that editing a message, or removing a statement that contains one, does not lose an anchor)."""
@@ -979,6 +1020,8 @@ def build(unit_path, out_dir, canary=False, repo=None):
                 meta["rules"].append("%s `%s` -> `%s`" % (rp["rule"], rp["old"], rp["new"]))
             if tk["kind"] == "struct":
                 plain = _add_pub_struct_fields(plain)
+            if tk["kind"] == "const":
+                plain = _bytestr_const(plain, tk["name"], meta["rules"])
             plain = _ensure_pub(plain)
             meta["rules"].append("R1 pub")
             em.emit(plain)
